@@ -220,6 +220,19 @@ def scenarios(rng: random.Random, tier: str) -> list[str]:
                 out.append(nodegen.CONFIGS[cfgn] + " | start fail | acc | rx 0 " + msg + " | rx 0 " + nodegen.dwr(81, 82) + " | tick")
         for relay in (",acct=4294967295", ",vauth=4294967295"):
             out.append(nodegen.CONFIGS[cfgn] + " | start fail | acc | rx 0 " + nodegen.cer("peer1.x", "", 83, 84, relay) + " | tick")
+    # application ids at the edges of the 32-bit range: an application with id 0 (and one with 4294967294) -- the ids the
+    # node and the peer share are exactly {0}, {0} in the accounting role, {0} inside Vendor-Specific-Application-Id,
+    # 0 next to an id the node does not have, only ids the node does not have (-> 5010)
+    for role in ((1, 0), (0, 1), (1, 1)):
+        zero = (f"NODE host={nodegen.HOST};realm={nodegen.REALM};peer:peer1.x,{nodegen.REALM},0,0,30,1,0,-,-,-,-;"
+                f"app:0,{role[0]},{role[1]},b,0,0,-;app:4294967294,{role[0]},{role[1]},b,0,0,-")
+        for auth, extra in (("0", ""), ("", ",acct=0"), ("", ",vauth=0"), ("", ",vacct=0"), ("0+99", ""), ("99", ",acct=98"),
+                            ("4294967294", ""), ("", ",acct=4294967294"), ("0", ",acct=0")):
+            out.append(zero + " | start | acc | rx 0 " + nodegen.cer("peer1.x", auth, 7401, 7402, extra) + " | rx 0 " +
+                       nodegen.dwr(7403, 7404) + " | tick")
+        zero_out = zero.replace(",0,0,30,1,0,-,-,-,-;", ",1,0,30,1,0,-,-,-,-;", 1)
+        out.append(zero_out + " | start ok | rx 0 " + nodegen.cea(2001, "peer1.x", 2001, 268435464, auth="0") + " | tick | rx 0 " +
+                   nodegen.dwr(7405, 7406) + " | tick")
     # a node without applications dials a peer: the 2001 CEA makes the connection ready
     noapp_out = (f"NODE host={nodegen.HOST};realm={nodegen.REALM};peer:peer1.x,{nodegen.REALM},1,0,30,1,0,-,-,-,-")
     for a in ("4", "99"):
